@@ -1,4 +1,5 @@
 import Vinegar.Lemmas.Merge
+import Vinegar.Lemmas.MergeAssoc
 /-
 Property C13 — data-tree merging and data-source chaining follow the documented algebra.
 
@@ -536,104 +537,131 @@ theorem composite_version_changes (hH : Function.Injective H)
     (by rw [e1, e2, hv])
   exact hne this.2
 
-/-! ## associativity (stretch)
+/-! ## associativity
 
-Full statement (NOT proved here; checked differentially on error-free triples, clause `assoc`):
+`mergeLeft a b c` = `merge(merge(a, b), c)`, `mergeRight a b c` = `merge(a, merge(b, c))`
+(Spec/Merge.lean; the inner call's exception is the exception of the whole).  For dictionaries
+(distinct keys at every level) and every flag setting the two are the SAME association list —
+same keys in the same order, the same key objects (`True` vs `1`), the same values, lists in
+the same order with the same representative of `==`-equal elements — whenever one of them
+succeeds, and one raises iff the other does.  Probed on the real `merge_data_trees` before
+proving (471 648 exhaustive single-key triples over a 33-value alphabet incl. `True`/`1`
+bridging in keys, list and set elements, and 300 000 random nested triples: no difference in
+outcome class, value, key order or key type); the harness compares both bracketings of every
+generated triple (clause `assoc`).
 
-    theorem merge_assoc (ha : Dict.wf a) (hb : Dict.wf b) (hc : Dict.wf c)
-        (h1 : mergeDict ml ms a b = .ok ab) (h2 : mergeDict ml ms ab c = .ok l)
-        (h3 : mergeDict ml ms b c = .ok bc) (h4 : mergeDict ml ms a bc = .ok r) : l ≈ r
+Why list / set merging does NOT break it: with `⊕ = appendUnseen`, `(A ⊕ B) ⊕ C` and
+`A ⊕ (B ⊕ C)` both keep `A`, then the first representative of every `==`-class of `B` that
+`A` lacks, then the first representative of every class of `C` that neither has — all that is
+needed of `==` is reflexivity on the elements (`pyEq_refl`, from well-formedness) and
+transitivity (`pyEq_trans`, unconditional); symmetry is not needed.  `True == 1` is harmless
+because the surviving representative is the leftmost one under both bracketings.  The statement
+would fail only for an `==` that is not transitive or not reflexive (NaN), which the value
+domain excludes.
 
-(`≈` = equal up to the order inside sets). Missing for the full proof: symmetry and transitivity
-of `pyEq` on nested values (needed for the list-append and set-union branches), preservation of
-`Dict.wf` by the merge, and extensionality of association lists with distinct keys.
+What is NOT equal is the identity of the raised error (the `raise` site, in Python the message
+with the key path): `merge_assoc_error_site_differs`.
 -/
 
-theorem mergeVal_flat {v ov : Val} (hv : v.kind ≠ .mapping) (ho : ov.kind ≠ .mapping) :
-    mergeVal false false v ov = .ok ov := by
-  rw [mergeVal_leaf (fun h => hv h.1)]
-  simp only [mergeLeaf, Val.isMapping, Bool.false_and, Bool.false_eq_true, if_false]
-  cases hk : v.kind <;> cases hk' : ov.kind <;> simp_all
+/-- **Associativity.** For dictionaries `a`, `b`, `c` (distinct keys at every level) and every
+flag setting: if both bracketings succeed, `merge(merge(a,b),c)` and `merge(a,merge(b,c))` are
+the same association list — keys, key order and values (nested dictionaries, appended lists and
+united sets included). -/
+theorem merge_assoc {a b c ab bc l r : Dict}
+    (ha : Dict.wf a = true) (hb : Dict.wf b = true) (hc : Dict.wf c = true)
+    (h1 : mergeDict ml ms a b = .ok ab) (h2 : mergeDict ml ms ab c = .ok l)
+    (h3 : mergeDict ml ms b c = .ok bc) (h4 : mergeDict ml ms a bc = .ok r) : l = r := by
+  obtain ⟨bc', h3', h4'⟩ := (assocD_all (ml := ml) (ms := ms) a b c ha hb hc).1 ab l h1 h2
+  rw [h3] at h3'; injection h3' with h3'; subst h3'
+  rw [h4] at h4'; injection h4' with h4'; exact h4'.symm
 
-/-- **Associativity, partial**: with both flags off and trees whose values are not mappings
-(one level), both bracketings of a triple give the same value for every key. -/
-theorem merge_assoc_partial {a b c ab bc l r : Dict}
-    (fa : ∀ kv ∈ a, kv.2.kind ≠ .mapping) (fb : ∀ kv ∈ b, kv.2.kind ≠ .mapping)
-    (fc : ∀ kv ∈ c, kv.2.kind ≠ .mapping)
-    (h1 : mergeDict false false a b = .ok ab) (h2 : mergeDict false false ab c = .ok l)
-    (h3 : mergeDict false false b c = .ok bc) (h4 : mergeDict false false a bc = .ok r) :
-    ∀ k, lookup k l = lookup k r := by
-  intro k
-  have s1 := merge_value_spec h1 k
-  have s2 := merge_value_spec h2 k
-  have s3 := merge_value_spec h3 k
-  have s4 := merge_value_spec h4 k
-  have ka : ∀ v, lookup k a = some v → v.kind ≠ .mapping := fun v h => by
-    obtain ⟨k', hk'⟩ := lookup_mem h; exact fa _ hk'
-  have kb : ∀ v, lookup k b = some v → v.kind ≠ .mapping := fun v h => by
-    obtain ⟨k', hk'⟩ := lookup_mem h; exact fb _ hk'
-  have kc : ∀ v, lookup k c = some v → v.kind ≠ .mapping := fun v h => by
-    obtain ⟨k', hk'⟩ := lookup_mem h; exact fc _ hk'
-  cases ha : lookup k a with
-  | none =>
-    cases hb : lookup k b with
-    | none =>
-      simp only [ha, hb] at s1 s3
-      cases hc : lookup k c <;> simp only [hc] at s3 <;> simp only [s1, hc] at s2 <;>
-        simp only [ha, s3] at s4 <;> rw [s2, s4]
-    | some vb =>
-      simp only [ha, hb] at s1 s3
-      cases hc : lookup k c with
-      | none => simp only [hc] at s3; simp only [s1, hc] at s2; simp only [ha, s3] at s4; rw [s2, s4]
-      | some vc =>
-        simp only [hc] at s3
-        obtain ⟨x, hx, hbc⟩ := s3
-        rw [mergeVal_flat (kb vb hb) (kc vc hc)] at hx
-        simp only [s1, hc] at s2
-        obtain ⟨y, hy, hl⟩ := s2
-        rw [mergeVal_flat (kb vb hb) (kc vc hc)] at hy
-        simp only [ha, hbc] at s4
-        rw [hl, s4]; cases hx; cases hy; rfl
-  | some va =>
-    cases hb : lookup k b with
-    | none =>
-      simp only [ha, hb] at s1 s3
-      cases hc : lookup k c with
-      | none => simp only [hc] at s3; simp only [s1, hc] at s2; simp only [ha, s3] at s4; rw [s2, s4]
-      | some vc =>
-        simp only [hc] at s3
-        simp only [s1, hc] at s2
-        obtain ⟨y, hy, hl⟩ := s2
-        simp only [ha, s3] at s4
-        obtain ⟨z, hz, hr⟩ := s4
-        rw [mergeVal_flat (ka va ha) (kc vc hc)] at hy hz
-        cases hy; cases hz; rw [hl, hr]
-    | some vb =>
-      simp only [ha, hb] at s1 s3
-      obtain ⟨w, hw, hab⟩ := s1
-      rw [mergeVal_flat (ka va ha) (kb vb hb)] at hw
-      cases hw
-      cases hc : lookup k c with
-      | none =>
-        simp only [hc] at s3
-        simp only [hab, hc] at s2
-        simp only [ha, s3] at s4
-        obtain ⟨z, hz, hr⟩ := s4
-        rw [mergeVal_flat (ka va ha) (kb vb hb)] at hz
-        cases hz; rw [s2, hr]
-      | some vc =>
-        simp only [hc] at s3
-        obtain ⟨x, hx, hbc⟩ := s3
-        rw [mergeVal_flat (kb vb hb) (kc vc hc)] at hx
-        cases hx
-        simp only [hab, hc] at s2
-        obtain ⟨y, hy, hl⟩ := s2
-        rw [mergeVal_flat (kb vb hb) (kc vc hc)] at hy
-        cases hy
-        simp only [ha, hbc] at s4
-        obtain ⟨z, hz, hr⟩ := s4
-        rw [mergeVal_flat (ka va ha) (kc vc hc)] at hz
-        cases hz; rw [hl, hr]
+/-- **Associativity, success half.** One bracketing succeeds with result `l` iff the other
+succeeds with the same `l`. -/
+theorem merge_assoc_ok_iff {a b c : Dict}
+    (ha : Dict.wf a = true) (hb : Dict.wf b = true) (hc : Dict.wf c = true) (l : Dict) :
+    mergeLeft ml ms a b c = .ok l ↔ mergeRight ml ms a b c = .ok l := by
+  have hA := assocD_all (ml := ml) (ms := ms) a b c ha hb hc
+  simp only [mergeLeft, mergeRight]
+  constructor
+  · intro h
+    cases h1 : mergeDict ml ms a b with
+    | error e => simp [h1] at h
+    | ok ab =>
+      simp only [h1] at h
+      obtain ⟨bc, h3, h4⟩ := hA.1 ab l h1 h
+      simp only [h3, h4]
+  · intro h
+    cases h3 : mergeDict ml ms b c with
+    | error e => simp [h3] at h
+    | ok bc =>
+      simp only [h3] at h
+      obtain ⟨ab, h1, h2⟩ := hA.2 bc l h3 h
+      simp only [h1, h2]
+
+/-- **Associativity, error half.** `merge(merge(a,b),c)` raises TypeError iff
+`merge(a,merge(b,c))` does (in either case from the inner or from the outer call). -/
+theorem merge_assoc_typeerror_iff {a b c : Dict}
+    (ha : Dict.wf a = true) (hb : Dict.wf b = true) (hc : Dict.wf c = true) :
+    (∃ e, mergeLeft ml ms a b c = .error e) ↔ (∃ e, mergeRight ml ms a b c = .error e) := by
+  have hi := merge_assoc_ok_iff (ml := ml) (ms := ms) ha hb hc
+  constructor
+  · rintro ⟨e, he⟩
+    cases hr : mergeRight ml ms a b c with
+    | error e' => exact ⟨e', rfl⟩
+    | ok l => rw [(hi l).mpr hr] at he; cases he
+  · rintro ⟨e, he⟩
+    cases hl : mergeLeft ml ms a b c with
+    | error e' => exact ⟨e', rfl⟩
+    | ok l => rw [(hi l).mp hl] at he; cases he
+
+/-- **Associativity of the observable outcome**: what a caller sees of the two bracketings —
+the result, or the exception class — is the same. This is the equation the harness evaluates on
+the real `merge_data_trees` for every generated triple (clause `assoc`). -/
+theorem merge_assoc_outcome {a b c : Dict}
+    (ha : Dict.wf a = true) (hb : Dict.wf b = true) (hc : Dict.wf c = true) :
+    observedOutcome (mergeLeft ml ms a b c) = observedOutcome (mergeRight ml ms a b c) := by
+  have hi := merge_assoc_ok_iff (ml := ml) (ms := ms) ha hb hc
+  cases hl : mergeLeft ml ms a b c with
+  | ok l => rw [(hi l).mp hl]
+  | error e =>
+    cases hr : mergeRight ml ms a b c with
+    | error e' => rfl
+    | ok l => rw [(hi l).mpr hr] at hl; cases hl
+
+/-- **The stronger equation `mergeLeft = mergeRight` is false**: the two bracketings may raise
+at different `raise` sites (in Python: same class `TypeError`, different message and key path).
+Witness (`merge_lists` on): `a = {y: {}, x: 1}`, `b = {x: 1}`, `c = {x: [], y: 1}` — the left
+bracketing fails on `y` (mapping vs non-mapping), the right one on `x` (sequence vs
+non-sequence) inside `merge(b, c)`. Hence `merge_assoc_outcome` identifies the errors. -/
+theorem merge_assoc_error_site_differs :
+    ∃ a b c : Dict, Dict.wf a = true ∧ Dict.wf b = true ∧ Dict.wf c = true ∧
+      mergeLeft true false a b c = .error .mapping ∧
+      mergeRight true false a b c = .error .sequence :=
+  ⟨[(.str "y", .dict []), (.str "x", .int 1)], [(.str "x", .int 1)],
+   [(.str "x", .list []), (.str "y", .int 1)], by decide, by decide, by decide, rfl, rfl⟩
+
+/-- **The merge of two dictionaries is a dictionary** (distinct keys at every level), so the
+well-formedness hypotheses of the theorems above hold again for merged trees, e.g. along a
+composite run. -/
+theorem merge_wf {a b r : Dict} (ha : Dict.wf a = true) (hb : Dict.wf b = true)
+    (h : mergeDict ml ms a b = .ok r) : Dict.wf r = true :=
+  wf_mergeDict ha hb h
+
+/-- **List / set merging is associative on its own**: appending the unseen elements of `B` and
+then of `C` to `A` gives the same list as appending to `A` the unseen elements of `B ⊕ C` —
+same elements, same order, same representative of `==`-equal elements (`True` vs `1`). -/
+theorem append_unseen_assoc (A B C : List Val) (hB : ∀ e ∈ B, e.wf = true) (hC : ∀ e ∈ C, e.wf = true) :
+    appendUnseen (appendUnseen A B) C = appendUnseen A (appendUnseen B C) :=
+  appendUnseen_assoc A B C (fun e he => pyEq_refl e (hB e he)) (fun e he => pyEq_refl e (hC e he))
+
+/-- `True == 1` bridging in keys and list elements, tuples merged into lists: both bracketings
+give `{True: [True, 2, 3]}` (the key object and the representative `True` come from `a`) -/
+example :
+    mergeLeft true true [(.bool true, .list [.bool true])] [(.int 1, .list [.int 1, .int 2])]
+      [(.bool true, .tuple [.int 2, .bool true, .int 3])] = .ok [(.bool true, .list [.bool true, .int 2, .int 3])] ∧
+    mergeRight true true [(.bool true, .list [.bool true])] [(.int 1, .list [.int 1, .int 2])]
+      [(.bool true, .tuple [.int 2, .bool true, .int 3])] = .ok [(.bool true, .list [.bool true, .int 2, .int 3])] :=
+  ⟨rfl, rfl⟩
 
 /-! ## examples: the hypotheses are satisfiable, known-bad behaviour is rejected -/
 
